@@ -11,9 +11,11 @@ import WpModel.Lemmas.ImageDedupe
 import WpModel.Lemmas.ReplacedBg
 import WpModel.Model.ReplacedBg
 import WpModel.Model.ImageDraw
+import WpModel.Model.RasterEmbed
 
 set_option linter.unusedSimpArgs false
 set_option linter.unusedVariables false
+set_option linter.unnecessarySeqFocus false
 
 namespace Wp.C13
 open Wp Wp.Replaced
@@ -559,5 +561,90 @@ example : (drawReplacedbox true ⟨10, 20, 0, 0, 0, 0, 0, 0, 0, 0, 0, 0, 0, 0, 1
 
 example : (svgIntrinsic (some 64) none (some (2, 8))).toOption.map (fun i => (i.w, i.h, i.ratio)) =
     some (some 64, some 256, some (2 / 8)) := by decide +kernel
+
+
+/-! ## C13.embedded_alpha — decisions of `RasterImage.__init__` / `get_x_object` -/
+
+section Embed
+open Wp.RasterEmbed
+
+/-- What `rasterInit` decides, whenever it succeeds: the normalised mode and the JPEG path. -/
+theorem rasterInit_mode (s : Src) (o : Opts) (r : Raster) (h : rasterInit s o = .ok r) :
+    r.mode = (normalise s.mode s.transparency).1 ∧
+    r.jpeg = (!(normalise s.mode s.transparency).2 && (s.format == .jpeg || s.format == .mpo)) := by
+  unfold rasterInit at h
+  rcases hn : normalise s.mode s.transparency with ⟨m, c⟩
+  simp only [hn] at h
+  cases c <;> simp at h ⊢
+  · split_ifs at h <;> simp at h <;> subst h <;> simp_all
+  · split_ifs at h <;> simp at h <;> subst h <;> simp_all
+
+/-- **An image with an alpha channel or transparency information gets an `/SMask`; one without does
+not.**  For every image that Pillow's decoders can produce (`JPEG`/`MPO` files decode to `L`, `RGB` or
+`CMYK`) except palette-with-alpha (`PA`, see `Witness.unwritable_mode_raises`), whatever the options and
+the orientation, whenever the image is embedded at all. -/
+theorem embed_smask_iff_alpha (s : Src) (o : Opts) (r : Raster) (x : XObject)
+    (h : embed s o = .ok (r, x)) (hpa : s.mode ≠ .PA)
+    (hjpeg : s.format = .jpeg ∨ s.format = .mpo → s.mode = .L ∨ s.mode = .RGB ∨ s.mode = .CMYK) :
+    x.smask = hasAlpha s := by
+  unfold embed at h
+  rcases hr : rasterInit s o with e | r'
+  · simp [hr] at h
+  · simp [hr] at h
+    obtain ⟨rfl, rfl⟩ := h
+    obtain ⟨hm, hj⟩ := rasterInit_mode s o r' hr
+    rcases s with ⟨m, t, f, a, rot, hd⟩
+    simp only [xObject, hasAlpha, hm, hj] at *
+    cases t <;> cases f <;> cases m <;> simp_all [normalise] <;> try decide
+
+/-- The colour space follows the normalised mode: transparency information, bilevel, palette and
+integer images are RGB, `L`/`LA` grey, `CMYK` (JPEG) CMYK. -/
+theorem embed_colour_space (s : Src) (o : Opts) (r : Raster) (x : XObject) (h : embed s o = .ok (r, x)) :
+    x.colorSpace = colorSpaceOf (normalise s.mode s.transparency).1 ∧
+    (x.colors3 = true → x.colorSpace = "/DeviceRGB") := by
+  unfold embed at h
+  rcases hr : rasterInit s o with e | r'
+  · simp [hr] at h
+  · simp [hr] at h
+    obtain ⟨rfl, rfl⟩ := h
+    obtain ⟨hm, _⟩ := rasterInit_mode s o r' hr
+    constructor
+    · unfold xObject; split_ifs <;> simp [hm]
+    · unfold xObject; split_ifs <;> simp
+      rintro (h | h) <;> simp [h, colorSpaceOf]
+
+/-- Lossless unless a lossy option was requested: a JPEG file, and a PNG file that needs no mode
+conversion, are passed through byte for byte when neither `optimize_images`, `jpeg_quality` nor a
+rotation is requested; and every non-JPEG image of a mode other than `I;16` / `CMYK` / `PA` / `F` that
+is embedded at all is embedded as a plain 8-bit grey/RGB(+mask) stream (`faithful`), which is what
+the decoded-pixel correspondence then checks against Pillow. -/
+theorem embed_lossless (s : Src) (o : Opts) (r : Raster) (h : rasterInit s o = .ok r) :
+    ((s.format = .jpeg ∨ s.format = .mpo) → s.transparency = false →
+      (s.mode = .L ∨ s.mode = .RGB ∨ s.mode = .CMYK) →
+      s.hasData = true → s.rotated = false → o.optimize = false → o.quality = false → r.reencoded = false) ∧
+    (s.format = .png → s.transparency = false → (s.mode = .L ∨ s.mode = .LA ∨ s.mode = .RGB ∨ s.mode = .RGBA) →
+      s.hasData = true → s.rotated = false → o.optimize = false → r.reencoded = false) ∧
+    (r.jpeg = false → (s.transparency = true ∨ s.mode = .bilevel ∨ s.mode = .L ∨ s.mode = .LA ∨ s.mode = .P ∨
+      s.mode = .RGB ∨ s.mode = .RGBA ∨ s.mode = .I) → faithful r = true) := by
+  obtain ⟨hm, hj⟩ := rasterInit_mode s o r h
+  rcases s with ⟨m, t, f, a, rot, hd⟩
+  rcases o with ⟨op, q⟩
+  refine ⟨?_, ?_, ?_⟩
+  · rintro hf rfl hmode rfl rfl rfl rfl
+    rcases hf with rfl | rfl <;> rcases hmode with rfl | rfl | rfl <;>
+      simp [rasterInit, normalise] at h <;> subst h <;> rfl
+  · rintro rfl rfl hmode rfl rfl rfl
+    rcases hmode with rfl | rfl | rfl | rfl <;> simp [rasterInit, normalise] at h <;> subst h <;> rfl
+  · intro hjf hmode
+    simp only [faithful, hjf, hm]
+    cases t <;> cases m <;> simp_all [normalise]
+
+example : (embed ⟨.P, true, .png, false, false, true⟩ ⟨false, false⟩).toOption =
+    some (⟨.RGBA, false, true, false⟩, ⟨"/DeviceRGB", "/FlateDecode", true, true, false⟩) := by decide +kernel
+
+example : (embed ⟨.CMYK, false, .jpeg, true, false, true⟩ ⟨false, false⟩).toOption =
+    some (⟨.CMYK, true, false, true⟩, ⟨"/DeviceCMYK", "/DCTDecode", false, false, true⟩) := by decide +kernel
+
+end Embed
 
 end Wp.C13
